@@ -35,8 +35,8 @@ type C06Scenario struct {
 	AtLowest  bool        `json:"node_at_lowest"`
 	EpochKind int         `json:"epoch_kind"` // 0: 2000-01-01, 1: repository default (2021), 2: 1 ms before the first reading
 	Node      int64       `json:"node"`
-	MinKind   int         `json:"min_kind"` // hard: 0 -> NewNode(node, 0); 1 -> NewNode(node, id of an earlier instant, step 77); 2 -> id of the first reading's millisecond, last step (4095); 3 -> id of one second after the first reading, last step
-	FarYears  int         `json:"far_years,omitempty"` // the clock starts this many years after 2023: timestamps beyond 41 bits (legal for the 9- and 8-bit node layouts)
+	MinKind   int         `json:"min_kind"`             // hard: 0 -> NewNode(node, 0); 1 -> NewNode(node, id of an earlier instant, step 77); 2 -> id of the first reading's millisecond, last step (4095); 3 -> id of one second after the first reading, last step
+	FarYears  int         `json:"far_years,omitempty"`  // the clock starts this many years after 2023: timestamps beyond 41 bits (legal for the 9- and 8-bit node layouts)
 	RestartAt int         `json:"restart_at,omitempty"` // restart: 0 -> from the last issued id; 1 -> from the id with the same millisecond and node and the last step (4095), which the node may just as well have issued last
 	Clock     []clockSeg  `json:"clock"`
 	Phases    []phase     `json:"phases"`
